@@ -4,6 +4,10 @@ import json, sys
 ALL = ["C%02d" % i for i in range(1, 21)]
 BASE = "for m in . dnsutil; do (cd /repo/$m && GOFLAGS=-mod=mod GOPROXY=off go test -json -vet=off -count=1 -timeout 25m ./...); done"
 checks = {
+ "C01": dict(cat="exploration", eng="E1", ref="§5 C01",
+   technique="bounded-exhaustive enumeration of abstract records/messages (every registered type × full product or ≤3-4-deviation vectors over boundary alphabets, all 2^16 flag words, all RCODEs 0..4095, all 65536 type codes as RFC 3597 data, section-size grid, 64 KiB RDATA edge) executed on the real Pack/Unpack and compared octet-for-octet with an independent hand-written RFC layout table (ref/wire)",
+   text="Every enumerated case runs PackRR/UnpackRR/Msg.Pack/Msg.Unpack and is compared with the reference encoder and strict decoder in three directions (pack==layout, unpack==original, repack==octets); complete within the stated alphabets and deviation bound.",
+   note="Trusted: harness/ref/wire (layout table + codec), harness/bind (reflection binding by Go field name). Field values outside the boundary alphabets and >4 simultaneous deviations are not covered."),
  "C03": dict(cat="exploration", eng="E1", ref="§5 C03",
    technique="bounded-exhaustive enumeration of names (all octets × positions, all label-length sequences around the 63/255 limits, all strings ≤6-7 tokens over an escape alphabet) run on the real PackDomainName/UnpackDomainName/IsDomainName/IsFqdn against an independent reference name model",
    text="Every case of three finite spaces is executed on the real code and compared with a reference reader/writer of RFC 1035 names; complete within the stated bounds, nothing sampled.",
